@@ -61,6 +61,10 @@ def fit_setup(st, self_obj, vals):
     quantified formula while the body is verified: it is instantiated at every index of the widths that is read
     (C08_focus.col_gcs.apply).  As a call-site precondition (`requires` of a callee) it stays the quantified formula."""
     st.ghost["columns_all_visible"] = True
+    ghost_setup(st, self_obj, vals)
+
+
+def ghost_setup(st, self_obj, vals):
     st.ghost["any_column"] = st.fresh_int("any_column")  # a universally quantified column index for the postconditions
 
 
@@ -146,19 +150,18 @@ class columns_gcc:
     params = dict(size=SIZE)
     result = Opt(Tup(Int, Int))
     invariant = staticmethod(pile_ri)
-    raises = (IndexError,)
+    raises = ()
 
     def requires(s, a):
         geo = sizes_of(s, a.size, True)
         return both(columns_wf(s), size_ok(a.size), _focus_visible(s, geo))
 
-    def on_raise(old, s, a, exc):
-        yield "only-an-empty-container-has-no-focus", n_items(old) == 0
-
     def ensures(old, s, a, result):
         st = cur()
         W = PROTOCOLS["Widget"]
-        yield "non-empty", n_items(old) > 0
+        if n_items(old) == 0:
+            yield "an-empty-container-has-no-cursor", is_none(result)
+            return
         fp = old._contents._focus
         w = item_at(old, fp)[0]
         geo = sizes_of(old, a.size, True)
@@ -189,20 +192,19 @@ class columns_pref_col:
     params = dict(size=SIZE)
     result = Opt(Int)
     invariant = staticmethod(pile_ri)
-    raises = (IndexError,)
+    raises = ()
     setup = staticmethod(fit_setup)
 
     def requires(s, a):
         geo = sizes_of(s, a.size, True)
         return both(columns_wf(s), size_ok(a.size), all_visible(geo[0]))
 
-    def on_raise(old, s, a, exc):
-        yield "only-an-empty-container-has-no-focus", n_items(old) == 0
-
     def ensures(old, s, a, result):
         st = cur()
         W = PROTOCOLS["Widget"]
-        yield "non-empty", n_items(old) > 0
+        if n_items(old) == 0:
+            yield "an-empty-container-has-no-preferred-column", is_none(result)
+            return
         fp = old._contents._focus
         w = item_at(old, fp)[0]
         geo = sizes_of(old, a.size, True)
@@ -248,7 +250,7 @@ def _mouse_loop(v):
     x_mono(m, i + 1, J)
     yield "x-is-the-left-edge-of-column-i", v.x == X(i)
     yield "cell-is-right-of-the-columns-passed", implies(i > 0, v.col >= v.x - d)
-    yield "cell-is-right-of-any-column-passed", implies(both(0 <= J, J < i), v.col >= X(J) + Q.seq_get(widths, J))
+    yield "cell-is-right-of-any-visible-column-passed", implies(both(0 <= J, J < i, Q.seq_get(widths, J) > 0), v.col >= X(J) + Q.seq_get(widths, J))
     yield "focus-flag-untouched", eq(v.focus, v.at_entry.focus)
     yield "nothing-delivered-yet", len(calls("mouse_event")) == 0
     yield "focus-not-moved-yet", both(v.self._contents._focus == old._contents._focus, n_items(v.self) == n_items(old), v.self.dividechars == d)
@@ -257,17 +259,17 @@ def _mouse_loop(v):
 @contract(CO + "Columns.mouse_event", property=("C09", "C08"), inline=INL, replayable=False)
 class columns_mouse:
     """(ii) a mouse event on a cell where child j is drawn goes to child j only, in child coordinates; a divider
-    cell (or a cell right of the last column) reaches nobody; button-1 press on a selectable child focuses it."""
+    cell (or a cell right of the last column) reaches nobody; button-1 press on a selectable child focuses it.
+    Hidden (zero-width) columns are skipped exactly as render skips them: no fit precondition is needed."""
 
     self_shape = COLUMNS
     params = dict(size=SIZE, event=Opaque("Key"), button=Int, col=Int, row=Int, focus=Bool)
     result = Bool
     invariant = staticmethod(pile_ri)
-    setup = staticmethod(fit_setup)
+    setup = staticmethod(ghost_setup)
 
     def requires(s, a):
-        geo = sizes_of(s, a.size, a.focus)
-        return both(columns_wf(s), size_ok(a.size), all_visible(geo[0]), 0 <= a.col, a.col < a.size[0], 0 <= a.row)
+        return both(columns_wf(s), size_ok(a.size), 0 <= a.col, a.col < a.size[0], 0 <= a.row)
 
     def ensures(old, s, a, result):
         st = cur()
@@ -301,3 +303,130 @@ class columns_mouse:
         yield "contents-untouched", n_items(s) == n_items(old)
 
     loops = {0: Loop(invariant=_mouse_loop)}
+
+
+# ================================================================================================ move_cursor_to_coords
+
+BEST = Opt(Tup(Int, Int, Int, Opaque("Widget")))
+
+
+def _sel(s, j):
+    return PROTOCOLS["Widget"].call_quiet(cur(), item_at(s, j)[0], "selectable", {})
+
+
+def _col_kind(col):
+    return "int" if V.is_num(col) else col
+
+
+def _mctc_loop(v):
+    """`best` is the last selectable column passed (none: no column passed is selectable); for a numeric `col` the
+    cell lies right of it; x is the left edge of column i; nothing has been asked or written yet."""
+    st = cur()
+    i = v.i_
+    old = v.old.self
+    widths = v.widths
+    m = Q.seq_len(widths)
+    d = old.dividechars
+    J = st.ghost["any_column"]
+    kind = _col_kind(v.col)
+    for k in (i - 1, i, J):
+        x_unfold(widths, d, k)
+    for a_, b_ in ((i, J), (i + 1, J), (J + 1, i)):
+        x_mono(m, a_, b_)
+    yield "x-is-the-left-edge-of-column-i", v.x == X(i)
+    yield "nothing-asked-or-written-yet", both(len(calls("move_cursor_to_coords")) == 0, v.self._contents._focus == old._contents._focus,
+                                               n_items(v.self) == n_items(old), opt_same(v.self.pref_col, old.pref_col), v.self.dividechars == d)
+    best = v.best
+    if is_none(best):
+        yield "no-selectable-column-passed", implies(both(0 <= J, J < i), neg(_sel(old, J)))
+    else:
+        b, bx, bend, bw = val(best)
+        x_unfold(widths, d, b)
+        for a_, b_ in ((J + 1, b + 1), (b + 1, J), (b + 1, i)):
+            x_mono(m, a_, b_)
+        yield "best-is-a-selectable-column-passed", both(0 <= b, b < i, _sel(old, b), bx == X(b), bend == X(b) + Q.seq_get(widths, b), eq(bw, item_at(old, b)[0]))
+        yield "best-is-the-last-one", implies(both(b < J, J < i), neg(_sel(old, J)))
+        if kind == "int":
+            yield "cell-is-right-of-best", v.col >= bend
+        elif kind == "left":
+            yield "leftmost-stops-at-the-first", False
+
+
+def _field(x):
+    return x
+
+
+@contract(CO + "Columns.move_cursor_to_coords", property=("C09", "C08"), inline=INL, replayable=False)
+class columns_mctc:
+    """(iii) picks a selectable column by Columns' rule -- the column under the cell if it is selectable, else the
+    nearest selectable one (ties to the right), leftmost / rightmost for 'left' / 'right' -- and succeeds exactly
+    when that child accepts the translated (clamped) cell; on success the focus is there."""
+
+    self_shape = COLUMNS
+    params = dict(size=SIZE, col=Union(Int, Const("left"), Const("right")), row=Int)
+    result = Bool
+    invariant = staticmethod(pile_ri)
+    setup = staticmethod(fit_setup)
+
+    def requires(s, a):
+        geo = sizes_of(s, a.size, True)
+        cell = both(0 <= a.col, a.col < a.size[0]) if V.is_num(a.col) else True
+        return both(columns_wf(s), size_ok(a.size), all_visible(geo[0]), cell, 0 <= a.row)
+
+    def ensures(old, s, a, result):
+        st = cur()
+        W = PROTOCOLS["Widget"]
+        geo = sizes_of(old, a.size, True)
+        widths = geo[0]
+        m = Q.seq_len(widths)
+        d = old.dividechars
+        fp = old._contents._focus
+        J = st.ghost["any_column"]  # universally quantified column index
+        inJ = both(0 <= J, J < m)
+        x_unfold(widths, d, J)
+        mv = calls("move_cursor_to_coords")
+        loc = st.ghost["exit_locals"]
+        kind = _col_kind(a.col)
+        unchanged = both(s._contents._focus == fp, opt_same(s.pref_col, old.pref_col))
+        yield "contents-untouched", n_items(s) == n_items(old)
+        yield "at-most-one-child-is-asked", len(mv) <= 1
+        if is_none(loc["best"]):
+            yield "only-without-a-selectable-column-nothing-is-chosen", both(implies(inJ, neg(_sel(old, J))), result == False, len(mv) == 0, unchanged)  # noqa: E712
+            return
+        c = loc["i"]  # the chosen column (witness of "there is a column c such that")
+        x_unfold(widths, d, c)
+        for a_, b_ in ((J + 1, c), (c + 1, J), (J + 1, c + 1)):
+            x_mono(m, a_, b_)
+        child = item_at(old, c)[0]
+        wc = Q.seq_get(widths, c)
+        yield "chosen-column-is-displayed-and-selectable", both(0 <= c, c < m, _sel(old, c))
+        other = both(inJ, _sel(old, J), neg(J == c))
+        if kind == "int":
+            endc, endJ = X(c) + wc, X(J) + Q.seq_get(widths, J)
+            yield "a-cell-on-a-selectable-child-picks-that-child", implies(both(hit(widths, J, a.col), _sel(old, J)), c == J)
+            yield "chosen-on-the-left-is-strictly-nearest", implies(both(endc <= a.col, other, c < J), both(X(J) > a.col, a.col - endc < X(J) - a.col))
+            yield "chosen-on-the-right-is-nearest", implies(both(a.col < X(c), other, J < c), both(endJ <= a.col, a.col - endJ >= X(c) - a.col))
+        elif kind == "left":
+            yield "leftmost-selectable-column", implies(other, J > c)
+        else:
+            yield "rightmost-selectable-column", implies(other, J < c)
+        k_, c_, _r = Q.seq_get(geo[2].raw, c)
+        rows_c = ite(k_ == 1, W.call_quiet(st, child, "rows", dict(size=(c_,), focus=True)), W.call_quiet(st, child, "pack", dict(size=(), focus=True))[1])
+        has = W.hasattr(None, st, child, "move_cursor_to_coords")
+        if both(k_ < 2, a.row >= rows_c):
+            yield "a-row-below-a-short-column-is-refused-without-asking", both(len(mv) == 0, result == False, unchanged)  # noqa: E712
+        elif not has:
+            yield "no-cursor-protocol-succeeds-without-asking", both(len(mv) == 0, result == True)  # noqa: E712
+        else:
+            yield "chosen-child-is-asked-once", len(mv) == 1
+            if mv:
+                recv, v, res = mv[0][1], mv[0][3], mv[0][4]
+                want_x = imin(imax(0, a.col - X(c)), wc - 1) if kind == "int" else a.col
+                yield "translated-cell", both(eq(recv, child), size_is(v["size"], Q.seq_get(geo[2].raw, c)), eq(v["col"], want_x), v["row"] == a.row)
+                yield "succeeds-iff-child-accepts", eq(result, res)
+        if result:
+            yield "on-success-focus-and-preferred-column-follow", both(s._contents._focus == c, eq(s.pref_col, a.col))
+        else:
+            yield "on-refusal-nothing-changes", unchanged
+
+    loops = {0: Loop(invariant=_mctc_loop, shapes={"best": BEST})}
